@@ -131,10 +131,56 @@ Theorem C03_untargeted_gets_nothing : forall i tag pads targets from count c,
 Proof. exact pushes_not_listed. Qed.
 Print Assumptions C03_untargeted_gets_nothing.
 
+(* Rooms of any size: a multi-target push whose id list names k never-added connection ids before
+   the listed connections (so that those stand at positions k, k+1, ... of a list of hundreds) is
+   served to exactly the live ones among the listed connections, in listing order ... *)
+Theorem C03_served_ids : forall (keep : Z -> bool) fill targets,
+  served keep (id_list fill targets) = filter keep targets.
+Proof. exact served_id_list. Qed.
+Print Assumptions C03_served_ids.
+
+(* ... so how MANY ids a push names, and at which position of the list a connection stands, is no
+   part of what is issued to it: every order theorem above speaks about rooms of 1, 128, 129 or
+   300 ids alike. *)
+Theorem C03_target_count_irrelevant : forall k ops cs dead,
+  issue_from cs dead (map (set_fill k) ops) = issue_from cs dead ops.
+Proof. exact fill_irrelevant. Qed.
+Print Assumptions C03_target_count_irrelevant.
+
+(* What a handler does to its SESSION (Set without PushSession, Set + PushSession, Bind - before
+   the pushes, before or after the completion) is no part of the issue order either: the items
+   issued to the clients are the same, so they arrive in the same order ... *)
+Theorem C03_session_traffic_irrelevant : forall k ops cs dead,
+  issue_from cs dead (map (set_sess k) ops) = issue_from cs dead ops.
+Proof. exact sess_irrelevant. Qed.
+Print Assumptions C03_session_traffic_irrelevant.
+
+(* ... whatever else travels through the same mailbox and queues (session synchronisation
+   messages, pushes to other connections, other issuers'
+   items): two networks whose issuer i issues the same items to connection c deliver the same
+   sequence of them to c, under any two schedules. *)
+Theorem C03_other_traffic_harmless : forall fixed logs logs' sched sched' i c,
+  owned_logs logs -> owned_logs logs' -> (fixed = true \/ i <> front) ->
+  drained (run_sched fixed (start logs) sched) ->
+  drained (run_sched fixed (start logs') sched') ->
+  proj i c (lookup logs i) = proj i c (lookup logs' i) ->
+  proj i c (lookup (got (run_sched fixed (start logs) sched)) c) =
+  proj i c (lookup (got (run_sched fixed (start logs') sched')) c).
+Proof. exact other_traffic_harmless. Qed.
+Print Assumptions C03_other_traffic_harmless.
+
+(* non-vacuity: room-1 pushes to a list of 130 ids - 128 never-added ones, then connections 1 and
+   2 (positions 128 and 129) - after dirtying its session without pushing it: both are sent the push
+   before the response and the one after it *)
+Example C03_example_room :
+  issue_from [] [] [OConn 1 0; OConn 2 0; OSend 1 2 1 1 7 [] 0 1 [1; 2] false 0 128 1]
+  = [mkItem 3 1 KPush 7 0 0; mkItem 3 2 KPush 7 0 0; mkItem 3 1 KResp 7 0 0; mkItem 3 1 KPush 7 1 0; mkItem 3 2 KPush 7 1 0].
+Proof. vm_compute. reflexivity. Qed.
+
 (* non-vacuity: room-1 kicks connection 2 and pushes to [2; 1; 3] from a later turn: 1 and 3 are
    sent both pushes around the response, 2 nothing; 2's later request is not served *)
 Example C03_example_kick :
-  issue_from [] [] [OConn 1 0; OConn 2 0; OConn 3 0; OSend 1 2 1 1 7 [] 0 1 [2; 1; 3] true 2; OSend 2 0 1 0 8 [] 0 0 [] false 0]
+  issue_from [] [] [OConn 1 0; OConn 2 0; OConn 3 0; OSend 1 2 1 1 7 [] 0 1 [2; 1; 3] true 2 0 0; OSend 2 0 1 0 8 [] 0 0 [] false 0 0 0]
   = [mkItem 3 1 KPush 7 0 0; mkItem 3 3 KPush 7 0 0; mkItem 3 1 KResp 7 0 0; mkItem 3 1 KPush 7 1 0; mkItem 3 3 KPush 7 1 0].
 Proof. vm_compute. reflexivity. Qed.
 
